@@ -114,6 +114,13 @@ def c04_cases():
         G, rate_fn, lambda G_, n, s, p: 'I' if s[n] == 'S' else 'R', lambda G_, n, s, p: list(G_.neighbors(n)), IC_big, ['S', 'I', 'R'], tmin=1.5, tmax=6.0)))
     out.append(('Gillespie_simple_contagion (IC with keys that are not nodes)', 'SIR', 1.5, 6.0, False,
                 lambda: EoN.Gillespie_simple_contagion(G, H, J, IC_big, ['S', 'I', 'R'], tmin=1.5, tmax=6.0)))
+    # directed contact network with reciprocal pairs (every undirected edge in both directions, plus two one-way edges)
+    Gd = G.to_directed(); Gd.add_edge(0, 4); Gd.add_edge(5, 2)        # one-way edges between non-adjacent nodes
+    out.append(('Gillespie_simple_contagion on a DiGraph with reciprocal pairs', 'SIR', 0.5, 7.0, False,
+                lambda: EoN.Gillespie_simple_contagion(Gd, H, J, IC, ['S', 'I', 'R'], tmin=0.5, tmax=7.0)))
+    Hs = nx.DiGraph(); Hs.add_edge('I', 'S', rate=1.0)
+    out.append(('Gillespie_simple_contagion SIS on a DiGraph with reciprocal pairs', 'SIS', 0.5, 4.0, False,
+                lambda: EoN.Gillespie_simple_contagion(Gd, Hs, J, IC, ['S', 'I'], tmin=0.5, tmax=4.0)))
     # everybody infectious at the start: the SIS chain goes on (next step: everybody susceptible), it does not stop
     out.append(('basic_discrete_SIS from an all-infected start', 'SIS', 2, 6, True, lambda: EoN.basic_discrete_SIS(G, 0.6, initial_infecteds=list(G), tmin=2, tmax=6)))
     out.append(('basic_discrete_SIS rho=1', 'SIS', 0, 3, True, lambda: EoN.basic_discrete_SIS(G, 1.0, rho=1.0, tmin=0, tmax=3)))
@@ -895,6 +902,9 @@ def c03_native(parts=('a', 'b', 'c')):
     graphs = []
     G = nx.Graph(); G.add_edges_from([(0, 1), (1, 2), (2, 0), (2, 3)]); G.add_node(4); graphs.append(('undirected', G))
     D = nx.DiGraph(); D.add_edges_from([(0, 1), (1, 2), (2, 0), (3, 2), (1, 3), (1, 0), (2, 3), (3, 4)]); graphs.append(('directed (with reciprocal pairs)', D))
+    # self-loops: (u, u) is an ordered neighbour pair like any other (it matters for rules whose source pair has two equal statuses)
+    G2 = nx.Graph(); G2.add_edges_from([(0, 1), (1, 2), (2, 0), (2, 3), (1, 1), (3, 3)]); G2.add_node(4); graphs.append(('undirected with self-loops', G2))
+    D2 = nx.DiGraph(); D2.add_edges_from([(0, 1), (1, 2), (2, 0), (1, 0), (2, 3), (3, 4), (2, 2), (0, 0)]); graphs.append(('directed with self-loops', D2))
     for _, g in graphs:
         for u, v in g.edges():
             g[u][v]['ew'] = 1.0 + ((u + 2 * v) % 3) * 0.5
